@@ -288,6 +288,12 @@ func c01Directed() []ap.Item {
 	out = append(out, &ap.Object{ID: id, Type: ap.NoteType, To: nested, CC: nested[3:], Tag: nested[:2]})
 	out = append(out, &ap.OrderedCollection{ID: id, Type: ap.OrderedCollectionType, OrderedItems: nested, TotalItems: 5})
 	out = append(out, &ap.CollectionPage{ID: id, Type: ap.CollectionPageType, Items: nested[:2], TotalItems: 2})
+	// a list whose FIRST member writes nothing (an object without any property, an empty IRI): what follows it is written
+	// as a well-formed list and comes back
+	for _, silent := range []ap.Item{&ap.Object{}, ap.IRI(""), &ap.Activity{}} {
+		out = append(out, &ap.Object{ID: id, Type: ap.NoteType, Tag: ap.ItemCollection{silent, ap.IRI("https://example.com/t/1"), ap.IRI("https://example.com/t/2")}})
+		out = append(out, &ap.OrderedCollection{ID: id, Type: ap.OrderedCollectionType, OrderedItems: ap.ItemCollection{silent, &ap.Object{ID: "https://example.com/n/1", Type: ap.NoteType}}})
+	}
 	// an object (top level and embedded) whose only property is a negative duration
 	out = append(out, &ap.Object{Duration: -5 * time.Second})
 	out = append(out, &ap.Object{ID: id, Type: ap.NoteType, Attachment: &ap.Object{Duration: -5 * time.Second}})
@@ -363,18 +369,20 @@ func probeValues(g *Gen, t reflect.Type, name string) []reflect.Value {
 		ap.IRI("https://example.com/a%20b?q=%C3%A9&r=a+b"), ap.IRI("https://example.com:443/x"), ap.IRI("https://example.com/a/../b/./c//d"),
 		ap.IRI("https://example.com#me"), ap.IRI("https://example.com:8443#k%C3%A9y"), ap.IRI("https://ex\u00e4mple.com/caf\u00e9/li\u212aed?q=a+b")}
 	// two members of one kind that say the same about everything but their id: both are members
-	act2 := &ap.Activity{ID: "https://example.com/act2", Type: ap.LikeType, Actor: id, Object: ap.IRI("https://example.com/notes/1"), Target: ap.IRI("https://example.com/t")}
-	act3 := &ap.Activity{ID: "https://example.com/act3", Type: ap.LikeType, Actor: id, Object: ap.IRI("https://example.com/notes/1"), Target: ap.IRI("https://example.com/t")}
+	act2 := &ap.Activity{ID: "https://example.com/act2", Type: ap.LikeType, Actor: id, Object: ap.IRI("https://example.com/notes/1"), Target: ap.IRI("https://example.com/t"), Result: ap.IRI("https://example.com/r"), Origin: ap.IRI("https://example.com/or"), Instrument: ap.IRI("https://example.com/in")}
+	act3 := &ap.Activity{ID: "https://example.com/act3", Type: ap.LikeType, Actor: id, Object: ap.IRI("https://example.com/notes/1"), Target: ap.IRI("https://example.com/t"), Result: ap.IRI("https://example.com/r"), Origin: ap.IRI("https://example.com/or"), Instrument: ap.IRI("https://example.com/in")}
 	obj2 := &ap.Object{ID: "https://example.com/notes/2", Type: ap.NoteType, Name: ap.NaturalLanguageValues{{Ref: ap.NilLangRef, Value: ap.Content("n")}}}
-	arr2 := &ap.IntransitiveActivity{ID: "https://example.com/arr2", Type: ap.ArriveType, Actor: id, Target: ap.IRI("https://example.com/t")}
-	arr3 := &ap.IntransitiveActivity{ID: "https://example.com/arr3", Type: ap.ArriveType, Actor: id, Target: ap.IRI("https://example.com/t")}
-	twins := []ap.ItemCollection{{act2, act3}, {obj, obj2}, {arr2, arr3}, {actor, &ap.Actor{ID: "https://example.com/actors/bob2", Type: ap.PersonType}}}
+	arr2 := &ap.IntransitiveActivity{ID: "https://example.com/arr2", Type: ap.ArriveType, Actor: id, Target: ap.IRI("https://example.com/t"), Result: ap.IRI("https://example.com/r"), Origin: ap.IRI("https://example.com/or"), Instrument: ap.IRI("https://example.com/in")}
+	arr3 := &ap.IntransitiveActivity{ID: "https://example.com/arr3", Type: ap.ArriveType, Actor: id, Target: ap.IRI("https://example.com/t"), Result: ap.IRI("https://example.com/r"), Origin: ap.IRI("https://example.com/or"), Instrument: ap.IRI("https://example.com/in")}
+	q2 := &ap.Question{ID: "https://example.com/q2", Type: ap.QuestionType, Actor: id, Instrument: ap.IRI("https://example.com/in"), OneOf: ap.ItemCollection{ap.IRI("https://example.com/o1")}}
+	q3 := &ap.Question{ID: "https://example.com/q3", Type: ap.QuestionType, Actor: id, Instrument: ap.IRI("https://example.com/in"), OneOf: ap.ItemCollection{ap.IRI("https://example.com/o1")}}
+	twins := []ap.ItemCollection{{act2, act3}, {obj, obj2}, {arr2, arr3}, {actor, &ap.Actor{ID: "https://example.com/actors/bob2", Type: ap.PersonType}}, {q2, q3}}
 	switch {
 	case name == "ID" || name == "Type":
 		return nil
 	case t == tItems:
 		return []reflect.Value{v(ap.ItemCollection{id}), v(ap.ItemCollection{id, obj}), v(ap.ItemCollection{obj}), v(ap.ItemCollection{actor, link, act}), v(ap.ItemCollection{idless}),
-			v(ap.ItemCollection(odd)), v(ap.ItemCollection{odd[1]}), v(twins[0]), v(twins[1]), v(twins[2]), v(twins[3])}
+			v(ap.ItemCollection(odd)), v(ap.ItemCollection{odd[1]}), v(twins[0]), v(twins[1]), v(twins[2]), v(twins[3]), v(twins[4])}
 	case t.Kind() == reflect.Interface:
 		items := []ap.Item{id, obj, actor, link, act, idless, ap.ItemCollection{id, obj}, ap.ItemCollection{id}, ap.ItemCollection(odd)}
 		items = append(items, odd...)
